@@ -6,6 +6,8 @@ import (
 	"strings"
 	"time"
 
+	"google.golang.org/grpc/codes"
+
 	"verif/engine"
 	"verif/fw"
 	"verif/world"
@@ -14,6 +16,15 @@ import (
 // s2Run executes one PRNG-generated history on the real controllers (engine S2) and reports the
 // findings that concern the given property.
 func s2Run(c *fw.Case, prop string, p *engine.Profile) *engine.Exec {
+	return s2RunSteps(c, prop, p, nil)
+}
+
+var classOf = map[codes.Code]string{codes.Unknown: "UNKNOWN", codes.InvalidArgument: "INVALID", codes.NotFound: "NOT_FOUND", codes.AlreadyExists: "ALREADY_EXISTS",
+	codes.Unauthenticated: "UNAUTHORIZED", codes.FailedPrecondition: "CONFLICT", codes.Unimplemented: "NOT_SUPPORTED", codes.Internal: "INTERNAL",
+	codes.ResourceExhausted: "UNKNOWN", codes.Aborted: "UNKNOWN", codes.OutOfRange: "UNKNOWN", codes.DataLoss: "UNKNOWN"}
+
+// s2RunSteps runs the given steps (or generates them from the profile when nil)
+func s2RunSteps(c *fw.Case, prop string, p *engine.Profile, steps []engine.Step) *engine.Exec {
 	opts := world.Options{Targets: p.Targets}
 	w, err := world.New(opts)
 	if err != nil {
@@ -25,15 +36,22 @@ func s2Run(c *fw.Case, prop string, p *engine.Profile) *engine.Exec {
 	mode := c.Rng.Intn(3)
 	if mode > 0 {
 		w.Delay = func(kind string) {
-			// schedule perturbation at decorated calls: yield or a short sleep
-			x := r.Intn(100)
-			if x < 10*mode {
+			// schedule perturbation at decorated calls: a short sleep with probability 10% / 20%
+			if r.Intn(100) < 10*mode {
 				time.Sleep(time.Duration(50+r.Intn(300)) * time.Microsecond)
 			}
 		}
 	}
-	steps := engine.GenScenario(c.Rng.Fork("scenario"), p, w.Schema)
+	if steps == nil {
+		steps = engine.GenScenario(c.Rng.Fork("scenario"), p, w.Schema)
+	}
 	e := &engine.Exec{C: c, W: w, P: p, Steps: steps, Opts: opts}
+	if p.RejectCode != codes.OK {
+		for _, d := range w.Devices {
+			d.RejectCode = p.RejectCode
+		}
+		e.RejectClass = classOf[p.RejectCode]
+	}
 	e.RunSteps()
 	e.Settle(8*time.Second, 90*time.Second)
 	if c.Violated() {
@@ -101,6 +119,9 @@ func s2Report(c *fw.Case, prop string, e *engine.Exec, j *engine.Judgement) {
 	}
 	c.Class(fmt.Sprintf("%v|%v", sortStrings(kinds), sortStrings(oc)))
 	c.Count("executions", 1)
+	if len(j.Outs) == 0 {
+		c.Trivial()
+	}
 	c.Count("client_calls", int64(len(e.Calls)))
 	c.Count("transactions_logged", int64(len(j.Outs)))
 	c.Count("sets", int64(nSets))
